@@ -127,6 +127,58 @@ def _subst_sizeof(p, f, prog=None):
     return out
 
 
+def _helper_result_facts(prog, f, facts):
+    """Facts imported from a validating helper: `r = g(.., v, ..)` with r known non-NULL/non-zero here, and every return of g
+    that is not a literal 0/NULL carries a must-fact `param < K` / `param <= K` about the parameter v was passed for:
+    then the same bound holds for v (v is not re-assigned in f: checked by name)."""
+    from .expr import var_init, is_null
+    out = set()
+    nonzero = {a for (a, op, b, d) in facts if (op == '!=' and b in ('0', 'NULL')) or (op == '>' and b == '0')}
+    if not nonzero:
+        return out
+    assigned = {}
+    for y in walk(f.body):
+        if y.get('kind') in ('BinaryOperator', 'CompoundAssignOperator') and (y.get('opcode') or '').endswith('=') and \
+                y.get('opcode') not in ('==', '!=', '<=', '>='):
+            assigned[canon(children(y)[0])] = assigned.get(canon(children(y)[0]), 0) + 1
+    for y in walk(f.body):
+        call, rv = None, None
+        if y.get('kind') == 'VarDecl' and var_init(y) is not None and strip(var_init(y)).get('kind') == 'CallExpr':
+            call, rv = strip(var_init(y)), y.get('name')
+        elif y.get('kind') == 'BinaryOperator' and y.get('opcode') == '=' and strip(children(y)[1]).get('kind') == 'CallExpr':
+            call, rv = strip(children(y)[1]), canon(children(y)[0])
+        if call is None or rv not in nonzero:
+            continue
+        for g in prog.callees(f.unit, call):
+            if getattr(g, 'body', None) is None or not getattr(g, 'static', False):
+                continue
+            gf = None
+            for k, a in enumerate(children(call)[1:]):
+                sa = strip(a)
+                if sa.get('kind') != 'DeclRefExpr' or k >= len(g.params) or assigned.get(canon(sa), 0) > 0:
+                    continue
+                pn = g.params[k].get('name')
+                gf = gf or Facts(g)
+                arrs = _local_array_bytes(g)
+                common = None
+                for r in g.cfg.returns():
+                    if not children(r.ast) or int_value(children(r.ast)[0]) == 0 or is_null(children(r.ast)[0]):
+                        continue
+                    here = set()
+                    for (a2, op, b, d) in gf.at(r):
+                        if a2 != pn or op not in ('<', '<='):
+                            continue
+                        mm = re.match(r'^\(?(?:\(\w+\))?\s*sizeof\(?\s*(\w+)\s*\)?\)?$', b)
+                        if mm and mm.group(1) in arrs:
+                            b = str(arrs[mm.group(1)])
+                        if re.match(r'^\d+$', b):
+                            here.add((op, b))
+                    common = here if common is None else (common & here)
+                for (op, b) in (common or ()):
+                    out.add((canon(sa), op, b, 'helper:%s' % g.name))
+    return out
+
+
 def _fits(cap, extent, facts):
     """cap - extent >= 0 provable?  returns (ok, reason)"""
     extent = Poly({tuple(a for a in mono if a != 'sizeof(char)'): c for mono, c in extent.t.items()})
@@ -230,6 +282,7 @@ def rule_bw1(prog, rep, units, rid='BW1'):
                         if mm and mm.group(1) in arrs:
                             extra.add((a, op, str(arrs[mm.group(1)]), d))
                     fa |= extra
+                    fa |= _helper_result_facts(prog, f, fa)
                     ok, why = _fits(capp, extent, fa)
                     if ok is None:
                         # retry with the length/offset as written (locals not expanded through their definitions)
